@@ -175,6 +175,15 @@ def run_shard(rec, tier, seed, shard, nshards):
                     oracle(rec, s2, kw2, tm_then, sm_then)
                 tm, sm = tm_then, sm_then
 
+            # ---- one of the two tables supplied alone is followed just the same
+            if rng.random() < 0.3:
+                try:
+                    which_ = "sample_mapping" if rng.random() < 0.5 else "treatment_mapping"
+                    s3 = Screen(**{which_: sm if which_ == "sample_mapping" else tm}, **kw2)
+                    rec.count("screens_with_one_mapping_supplied_alone")
+                    oracle(rec, s3, kw2, None if which_ == "sample_mapping" else tm, sm if which_ == "sample_mapping" else None)
+                except Exception as e:
+                    rec.violation("C01/construct/own-superset-mapping-rejected", "constructor raised %r with one mapping (of a superset) supplied alone" % (e,), witness(kw2))
             # ---- rejection cases
             ids2 = np.asarray(s2.treatment_ids)
             mids = np.asarray(tm[2])
@@ -340,8 +349,18 @@ def _pair_used(tm, r, kw):
     return False
 
 
+_ALONE = {}
+
+
 def expect_reject(rec, Screen, kw, maps, key, msg):
     rec.case(None, nontrivial=False)
+    _ALONE[key] = _ALONE.get(key, 0) + 1
+    if len(maps) == 2 and key.split("/")[1] in ("mapping", "sample-mapping") and _ALONE[key] % 2 == 0:
+        # the faulty table supplied ALONE (the other one left out): it is still checked
+        alone = "sample_mapping" if key.split("/")[1] == "sample-mapping" else "treatment_mapping"
+        maps = {alone: maps[alone]}
+        msg += " (supplied without the other mapping)"
+        rec.count("rejections_with_one_mapping_supplied_alone")
     try:
         Screen(**kw, **maps)
     except Exception:
